@@ -19,10 +19,10 @@ def prep(chk, pid):
         chk.finish()
     return broken
 
-def run_cases(chk, cases, shards=14):
+def run_cases(chk, cases, shards=14, henv=None):
     """cases: list of dict(line=..., meta...). Adds 'iobs','mobs' to each. Reports lost lines."""
     lines = [c["line"] for c in cases]
-    impl, model, failures = vlib.run_pair("conn", [], lines, shards=shards, timeout=900)
+    impl, model, failures = vlib.run_pair("conn", [], lines, shards=shards, timeout=900, henv=henv)
     for which, lo, hi, rc, tail in failures:
         if which == "model":
             chk.violation("model-run-failure", "modelrun failed rc=%s: %s" % (rc, tail[-300:]), dict(stage="model"), True)
@@ -142,6 +142,14 @@ def run_c03(tier, seed):
             else:
                 args = [b"e%d" % i for i in range(nargs)]
             cases.append(dict(reqs=[(name, args), ("PING", []), ("ECHO", [b"end"])], line=None, chunk=rng.choice(["whole", "pipeline", "kway"]), quit_at=None))
+    # the SECOND and THIRD use of the same request on one server (state a first use leaves behind: caches, locks, registrations)
+    for name in G.DIRECT:
+        nm_, args_, _ = G.gen_direct(rng, name)
+        cases.append(dict(reqs=[(nm_, args_)] * 3 + [("PING", [])], line=None, chunk=rng.choice(["whole", "pipeline"]), quit_at=None))
+    for key in (b"requirepass", b"port", b"timeout", b"maxclients", b"databases", b"loglevel", b"x"):
+        for vals in ((b"a", b"b", b"a"), (b"1", b"1", b"2")):
+            reqs = [("CONFIG", [b"SET", key, v]) for v in vals] + [("CONFIG", [b"GET", key]), ("PING", []), ("CONFIG", [b"SET", key, vals[0]]), ("ECHO", [b"end"])]
+            cases.append(dict(reqs=reqs, line=None, chunk="pipeline" if key == b"x" else "whole", quit_at=None))
     for _ in range(n):
         k = rng.randint(1, 8)
         reqs = [any_request(rng) for _ in range(k)]
@@ -411,7 +419,11 @@ def run_c04(tier, seed):
         cases2.append(dict(line=L.mkcase(steps, conns=4, tbl={"Get:" + L.hx(b"bigk"): "mb(" + L.hx(big) + ")"}, default="mb(7a7a7a)", trace=False),
                            expect=[b"$6000\r\n" + big + b"\r\n", b"+PONG\r\n"],
                            desc="a 6 KB reply waits for a slow client (%d bytes taken) while three other connections receive 48 array / bulk replies; then the slow client reads" % cap))
-    for c in run_cases(chk, cases2):
+    # run twice: with the scheduler's defaults, and on ONE processor (objects a runtime pool hands back are per processor: with one
+    # processor a buffer returned by the slow client's goroutine is the very next one another connection gets)
+    import copy, os
+    one_p = [dict(copy.deepcopy({k: v for k, v in c.items()}), desc=c["desc"] + " [GOMAXPROCS=1]") for c in cases2]
+    for c in run_cases(chk, cases2) + run_cases(chk, one_p, shards=2, henv=dict(os.environ, GOMAXPROCS="1")):
         o = c["iobs"]
         res0, evs0 = o.conns[0]
         err = L.monitor_frames(evs0)
@@ -494,6 +506,34 @@ def run_c05(tier, seed):
             if ws != [b"+OK\r\n", b"$1\r\nv\r\n"] or calls != ["Get(%s)" % L.hx(b"k%d" % ci)]:
                 chk.violation("name-casing-repeat", "connection %d of: %s: replies %s, handler calls %s (expected +OK, the value, and exactly one Get)" % (ci, c["desc"], ws, calls), dict(case=c["line"], desc=c["desc"]))
                 break
+    # commands that take key/value pairs, with a key named more than once: the handler gets ONE call per distinct key with the LAST
+    # value given for it (what Redis stores) - never a call with a value the request overrides
+    dup = []
+    for nm_ in ("MSET", "MSETNX", "HMSET"):
+        for pairs in ([(b"a", b"1"), (b"a", b"2")], [(b"a", b"1"), (b"b", b"x"), (b"a", b"2")], [(b"a", b"2"), (b"a", b"2")], [(b"a", b"1"), (b"a", b"2"), (b"a", b"3"), (b"b", b"y")],
+                      [(b"", b"1"), (b"", b"")], [(b"k", b"v")] + [(b"d", b"%d" % i) for i in range(5)]):
+            flat = [x for kv in pairs for x in kv]
+            args = ([b"h"] if nm_ == "HMSET" else []) + flat
+            last = {}
+            for k_, v_ in pairs:
+                last[k_] = v_
+            dup.append(dict(name=nm_, args=args, last=last, line=L.mkcase([(0, "f" + L.hx(G.request_bytes(nm_, args))), (0, "e")], default="mn" if nm_ == "MSETNX" else "ms(4f4b)"),
+                            desc=req_desc(nm_, args)))
+    for c in run_cases(chk, dup):
+        res, evs = c["iobs"].conns[0]
+        calls = sorted(x[4] for x in L.calls_of(evs) if x[4].startswith(("Set(", "HSet(")))      # (MSETNX probes with Get first)
+        if c["name"] == "HMSET":
+            want = sorted("HSet(%s,%s,%s," % (L.hx(b"h"), L.hx(k_), L.hx(v_)) for k_, v_ in c["last"].items())
+        else:
+            want = sorted("Set(%s,%s," % (L.hx(k_), L.hx(v_)) for k_, v_ in c["last"].items())
+        ok = len(calls) == len(want) and all(a.startswith(w) for a, w in zip(calls, want))
+        if ok and c["name"] == "MSETNX":
+            ok = all("nx=1" in a for a in calls)
+        if not ok:
+            chk.violation("repeated-key-pairs", "%s reached the handler as %s, expected one call per distinct key with its last value: %s..." % (c["desc"], calls, want),
+                          dict(case=c["line"], desc=c["desc"], got=calls, expected=want))
+        else:
+            corr(chk, c)
     good = run_cases(chk, cases)
     validated, distinct, per_cmd = 0, set(), {}
     for c in good:
@@ -668,6 +708,14 @@ def run_c11(tier, seed):
             cases.append(dict(reqs=reqs, k=k, j=j, mode=mode, line=L.mkcase(([(0, "f" + L.hx(data[:k]))] if k else []) + [(0, mode if not cf else "r")], default="mb(76)", cfail=cf),
                               desc="pipeline %s cut at byte %d of %d (%s)" % (" ; ".join(req_desc(n, a) for n, a in reqs)[:200], k, len(data),
                                                                             "reset, Close reports an error" if cf else ("half-close" if mode == "e" else "full close"))))
+        # a client that is gone before the server has read what it sent (fire and forget): every write of an answer fails while
+        # later, completely received requests are still unread - they are executed all the same, the partial one is not
+        for k in sorted(set(ends + [e - 1 for e in ends] + [e + 1 for e in ends[:-1]] + [len(data)])):
+            if 0 < k <= len(data):
+                j = sum(1 for e in ends if e <= k)
+                cases.append(dict(reqs=reqs, k=k, j=j, mode="wf", nowrites=True, line=L.mkcase([(0, "w"), (0, "f" + L.hx(data[:k])), (0, "e" if (k + pi) % 2 else "x")], default="mb(76)"),
+                                  desc="pipeline %s: the client is gone before the server reads (every answer write fails), stream ends at byte %d of %d" %
+                                       (" ; ".join(req_desc(n, a) for n, a in reqs)[:200], k, len(data))))
     # a request with more elements than the parser pre-allocates for (proto.maxArrayPrealloc = 1024), behind a small complete one:
     # the stream ends at / around every element boundary near the cap and its doublings, and at every byte of the elements around the cap
     for n_el, pi2 in ((1030, 0), (2052, 1)) if tier == "quick" else ((1025, 0), (1030, 1), (1500, 0), (2052, 1), (4100, 0)):
@@ -712,7 +760,7 @@ def run_c11(tier, seed):
                 chk.violation("partial-executed", "%s: handler calls %s, but only %d request(s) were received completely (expected %s)" % (c["desc"], calls, c["j"], want),
                               dict(case=c["line"], desc=c["desc"], got=calls, expected=want))
                 continue
-        if len(ws) != c["j"]:
+        if len(ws) != c["j"] and not c.get("nowrites"):
             chk.violation("reply-count-after-cut", "%s: %d replies for %d complete requests" % (c["desc"], len(ws), c["j"]), dict(case=c["line"], desc=c["desc"]))
             continue
         err = L.monitor_release(res, evs, c["iobs"].final)
@@ -801,17 +849,30 @@ def run_c20(tier, seed):
             for endop in ("e", "r"):
                 cases.append(dict(line=L.mkcase(([(0, "f" + L.hx(data[:k]))] if k else []) + [(0, endop)], default="mb(76)"), endk="cut-every-offset",
                                   desc="%s cut at byte %d of %d (%s)" % (" ; ".join(req_desc(n_, a) for n_, a in reqs), k, len(data), "eof" if endop == "e" else "reset")))
+    # the connection is closed from the SERVER side (Stop) while it is idle between requests, inside a request, or with a reply
+    # write in flight: the spans of the open iteration are still finished exactly once (the model has no Stop: monitors only)
+    bigv = bytes(range(65, 91)) * 400
+    for pre in ([("PING", [])], [("GET", [b"k"]), ("SET", [b"k", b"v"])], [], [("NOSUCH", [])], [("STRLEN", [b"k"]), ("HLEN", [b"h"])]):
+        data = b"".join(G.request_bytes(nm, a) for nm, a in pre)
+        for tail in (b"", b"*2\r\n$3\r\nGET\r\n$1", b"*1\r\n"):
+            steps = ([(0, "f" + L.hx(data + tail))] if data + tail else []) + [(0, "S")]
+            cases.append(dict(line=L.mkcase(steps, default="mb(76)"), endk="server-stop", nocorr=True,
+                              desc="%s%s, then the server is stopped [end: Stop]" % (" ; ".join(req_desc(n_, a) for n_, a in pre) or "(nothing sent)", " + a partial request" if tail else "")))
+    for cap in (0, 100, 5000):
+        steps = [(0, "s%d" % cap), (0, "f" + L.hx(G.request_bytes("PING", []) + G.request_bytes("GET", [b"bigk"]) + G.request_bytes("PING", []))), (0, "S")]
+        cases.append(dict(line=L.mkcase(steps, tbl={"Get:" + L.hx(b"bigk"): "mb(" + L.hx(bigv) + ")"}, default="ms(4f4b)"), endk="server-stop", nocorr=True,
+                          desc="PING ; GET bigk ; PING with the client not reading (%d bytes of buffer), then the server is stopped [end: Stop]" % cap))
     good = run_cases(chk, cases)
     validated, distinct, ends = 0, set(), {}
     for c in good:
-        if not basic_monitors(chk, "C20", c):
+        if not c.get("nocorr") and not basic_monitors(chk, "C20", c):
             continue
         res, evs = c["iobs"].conns[0]
         err = L.monitor_spans(evs)
         if err:
             chk.violation("spans-unbalanced", "%s :: %s" % (err, c["desc"]), dict(case=c["line"], desc=c["desc"], events=[e for e in evs if e[:2] in ("RS", "RF", "SS", "SF") or e.startswith("!")][:200]))
             continue
-        if not corr(chk, c):
+        if not c.get("nocorr") and not corr(chk, c):
             continue
         validated += 1
         ends[c["endk"]] = ends.get(c["endk"], 0) + 1
